@@ -1,6 +1,7 @@
 package fbb
 
 import (
+	"time"
 	"bytes"
 	"strings"
 )
@@ -176,5 +177,85 @@ func H_c09_address() {
 	symAssert(len(m.To()) == 1 && m.To()[0].Addr == up, "To-accessor")
 	symAssert(len(m.Cc()) == 1 && m.Cc()[0].Proto == "SMTP", "Cc-accessor")
 	symAssert(len(m.Receivers()) == 2, "receivers")
+	symReach("end")
+}
+
+func two(n int) string { return string([]byte{byte('0' + n/10%10), byte('0' + n%10)}) }
+
+// C09 K5: the date accessor at minute resolution.  A calendar instant from a
+// boundary grid, given in UTC or in a fixed zone, is set with SetDate: the
+// header holds the UTC wall clock in the Winlink layout (written here digit by
+// digit, not through time.Format), Date() returns the same instant, and the
+// message survives a serialise/parse round trip with the date intact.  The
+// other layouts ParseDate documents yield the same instant.
+func H_c09_date() {
+	year := [...]int{1970, 1999, 2000, 2016, 2024, 2038, 2100}[symInt(0, 6)]
+	md := [...][2]int{{1, 1}, {2, 28}, {2, 29}, {3, 1}, {6, 30}, {12, 31}}[symInt(0, 5)]
+	hm := [...][2]int{{0, 0}, {0, 59}, {9, 5}, {12, 30}, {23, 59}}[symInt(0, 4)]
+	leap := year%4 == 0 && (year%100 != 0 || year%400 == 0)
+	symAssume(!(md[0] == 2 && md[1] == 29 && !leap))
+	utc := time.Date(year, time.Month(md[0]), md[1], hm[0], hm[1], 0, 0, time.UTC)
+	want := refItoa(year) + "/" + two(md[0]) + "/" + two(md[1]) + " " + two(hm[0]) + ":" + two(hm[1])
+	t := utc
+	switch symInt(0, 2) {
+	case 1:
+		t = utc.In(time.FixedZone("east", 2*3600))
+	case 2:
+		t = utc.In(time.FixedZone("west", -(5*3600 + 30*60)))
+	}
+	if symInt(0, 1) == 1 {
+		t = t.Add(59*time.Second + 999*time.Millisecond) // seconds are not representable: truncated
+	}
+	// the process's local zone must not matter
+	if symInt(0, 1) == 1 {
+		saved := time.Local
+		time.Local = time.FixedZone("verif", 5*3600+30*60)
+		defer func() { time.Local = saved }()
+	}
+	m := mkMsg("ABCDEFGHIJKL", "s", "body\r\n")
+	m.SetDate(t)
+	symAssert(m.Header.Get(HEADER_DATE) == want, "date-header-is-the-utc-wall-clock-in-winlink-layout")
+	symAssert(m.Date().Equal(utc), "date-accessor-returns-what-was-set (minute resolution)")
+	raw, err := m.Bytes()
+	symAssert(err == nil, "serialise-ok")
+	back := new(Message)
+	symAssert(back.ReadFrom(bytes.NewReader(raw)) == nil, "parse-ok")
+	symAssert(back.Date().Equal(utc) && back.Header.Get(HEADER_DATE) == want, "date-survives-the-round-trip")
+	// the undocumented layouts seen in the field
+	alt := [...]string{
+		refItoa(year) + "." + two(md[0]) + "." + two(md[1]) + " " + two(hm[0]) + ":" + two(hm[1]),
+		refItoa(year) + "-" + two(md[0]) + "-" + two(md[1]) + " " + two(hm[0]) + ":" + two(hm[1]),
+		refItoa(year) + two(md[0]) + two(md[1]) + two(hm[0]) + two(hm[1]) + "00",
+	}[symInt(0, 2)]
+	d, err := ParseDate(alt)
+	symAssert(err == nil && d.Equal(utc), "alternative-layouts-parse-to-the-same-instant")
+	symReach("end")
+}
+
+// C09 K3b: control characters inside a subject or attachment name — with and
+// without a non-ASCII character next to them (a purely ASCII value with a line
+// break must not reach the header block raw: header injection)
+func H_c09_words_ctrl() {
+	ctrl := [...]string{"\n", "\r", "\r\n", "\t", "\x7f", "\x01"}[symInt(0, 5)]
+	left := "a"
+	if symInt(0, 1) == 1 {
+		left = c18SymLatin1Printable()
+		symAssume(left != " ")
+	}
+	s := left + ctrl + [...]string{"b", "X-Injected: 1", "æ"}[symInt(0, 2)]
+	m := mkMsg("ABCDEFGHIJKL", "x", "body\r\n")
+	m.SetSubject(s)
+	symAssert(m.Subject() == s, "subject-accessor-returns-what-was-set")
+	name := s + ".txt"
+	m.AddFile(NewFile(name, []byte("d")))
+	raw, err := m.Bytes()
+	symAssert(err == nil, "serialise-ok")
+	var parsed Message
+	symAssert(parsed.ReadFrom(bytes.NewReader(raw)) == nil, "parse-ok")
+	symAssert(parsed.Header.Get("X-Injected") == "", "no-header-injected-by-a-line-break-in-a-value")
+	symAssert(parsed.Subject() == s, "subject-round-trips")
+	symAssert(len(parsed.Files()) == 1 && parsed.Files()[0].Name() == name, "attachment-name-round-trips")
+	raw2, err := parsed.Bytes()
+	symAssert(err == nil && bytes.Equal(raw, raw2), "re-serialising-yields-the-same-bytes")
 	symReach("end")
 }
